@@ -100,6 +100,12 @@ CLAIMS["C01"] = dict(
     technique="Lean 4 proof (sender coupling invariant, receiver slot lemmas) + differentials + lockstep correspondence + content oracle",
     ref="5 C01")
 
+CLAIMS["C15"] = dict(
+    text="Lean theorems over a model of cubic.rs on extended rationals (NaN, +-inf, finite) with an explicit rounding operator, for EVERY rounding operator that is monotone, idempotent and exact on integers below 2^53 (IEEE round-to-nearest is) and every cbrt: window() lies between min(2*MSS, peer window) and the peer window in every state whatsoever (NaN/inf cwnd included); for every event sequence (ack / rto / enter recovery / recovered / set_mss / set_remote_window with any numeric arguments, MSS > 0) cwnd and rwnd stay finite, non-negative and representable (invariant by induction over event lists); an RTO gives window = min(2*MSS, peer) and never increases it, entering recovery never increases it, both set ssthresh = max(0.7*cwnd, 2); zero-length ACKs change nothing. Slow-start growth <= acknowledged bytes and MSS rescale keeps the byte value are proved for exact arithmetic (rnd = id). Tie: every step of the real Cubic is compared from the implementation's own previous f64 state (bit patterns) with the model instantiated at binary64 rounding.",
+    note="Trusted: Lean kernel; that IEEE-754 binary64 +,-,*,/ satisfy `Rounding` on the normal range; model floats have unbounded exponent range (overflow/underflow of finite computations not modelled); libm pow/cbrt compared within 2^-44 relative; harness and comparator. PARTIAL: with f64 rounding the slow-start growth and MSS-rescale equalities hold only up to one byte; the real code does exceed the acknowledged bytes by one byte (known finding D15) - the oracle reports any larger excess. Found and fixed: D4 (window() above the peer window after rounding / MSS change).",
+    technique="Lean 4 proof (rounding-parametric float model, invariant by induction over event lists, ordered-field lemmas) + regenerated constants + step-wise differential correspondence on f64 bit patterns",
+    ref="5 C15")
+
 PENDING = {
 }
 
